@@ -272,6 +272,9 @@ func keyHook(prefix string, nk int) func(string) []byte {
 func ZZReplies() {
 	nk := rt.Param("nk", 2)
 	text := rt.Param("text", 0) == 1
+	if rt.Param("poolhavoc", 0) == 1 {
+		rt.PoolHavoc(true)
+	}
 	npipe := rt.Param("pipeline", 2)
 	var cfg int
 	if p := rt.Param("orca", -1); p >= 0 {
